@@ -5,7 +5,7 @@ from fractions import Fraction as Fr
 
 import engine
 import streams
-from common import sub_seed
+from common import sub_seed, size
 
 THEOREMS = ["LNN.C04_point", "LNN.C04_point_call", "LNN.C04_point_local",
             "LNN.C04_classical_and", "LNN.C04_classical_or", "LNN.C04_classical_implies", "LNN.C04_classical_not",
@@ -63,7 +63,7 @@ def run(rep, tier, seed):
     rng = random.Random(sub_seed(seed, "c04"))
     d1 = all_trees(2, 1)
     d2 = all_trees(2, 2)
-    if tier == "quick":
+    if tier != "thorough":
         trees = d1 + rng.sample(d2, 300)
         exhaustive = "all formulae with one connective over 2 atoms (exhaustive) + 300 sampled of the 2902 depth-2 formulae, all 9 three-valued inputs each"
     else:
@@ -71,7 +71,7 @@ def run(rep, tier, seed):
         exhaustive = "ALL 2902 formulae of depth <= 2 over And/Or/Implies/Not/Iff/XOr and 2 atoms, all 9 three-valued inputs each"
     # 3-atom formulae with 3-ary connectives
     three = []
-    for _ in range(40 if tier == "quick" else 600):
+    for _ in range(size(tier, 40, 600)):
         a = [("atom", 0), ("atom", 1), ("atom", 2)]
         inner = [rng.choice([("and",) + tuple(rng.sample(a, 2)), ("or",) + tuple(a), ("not", rng.choice(a)),
                              ("iff",) + tuple(rng.sample(a, 2)), ("xor",) + tuple(a), ("implies",) + tuple(rng.sample(a, 2))])
@@ -112,7 +112,7 @@ def run(rep, tier, seed):
     rep.extra["exhaustive_space"] = exhaustive
 
     # ---- duality laws on dyadic intervals and weights
-    nd = 200 if tier == "quick" else 5000
+    nd = size(tier, 200, 5000)
     dcases = []
     grid = [Fr(k, 8) for k in range(9)]
     for k in range(nd):
